@@ -117,11 +117,80 @@ CLASSES = {
 ANY_ATTRS = {}
 ANY_METHODS = {}
 OPAQUE = {}
-LIBRARY = {}
+
+
+def _lib_deepcopy(ex, args, kwargs, s):
+    """copy.deepcopy (assumed contract A4): either raises TypeError/copy.Error, or returns r with IsDeepCopy(r, v)."""
+    from pyvc.values import Raised
+    from pyvc.engine import to_v, REG
+    import copy as _copy
+    (v,) = args[:1]
+    REG.add(_copy.Error)
+    for cls in ("TypeError", "Error"):
+        s_r = s.fork()
+        s_r.trace.append(("raised-by", "copy.deepcopy", cls))
+        yield s_r, Raised(cls, None, {"exact": True, "by": "copy.deepcopy"})
+    r = Val(smt.fresh_v("dcopy"), v.ty if isinstance(v, Val) else ANY)
+    s.assume(IsDeepCopy(r.t, to_v(v, s)))
+    yield s, r
+
+
+IsDeepCopy = z3.Function("IsDeepCopy", smt.V, smt.V, z3.BoolSort())
+
+
+def _spec_is_deepcopy(ex, args, kwargs, s):
+    from pyvc.engine import to_v
+    yield s, BVal(IsDeepCopy(to_v(args[0], s), to_v(args[1], s)))
+
+
+def _spec_forall_keys(ex, args, kwargs, s):
+    """forall_keys(lambda k: P, ...): symbolically a quantifier over ALL string values (the listed universes are ignored)."""
+    from pyvc.engine import truth
+    from pyvc.calls import apply
+    fn = args[0]
+    k = z3.Const(smt.push_binder("fk"), smt.V)
+    ex.pure_depth += 1
+    try:
+        s2 = s.fork()
+        res = list(apply(ex, fn, [Val(k, STR)], {}, s2))
+        if len(res) != 1:
+            raise Exception("forall_keys body forks")
+        body = truth(res[0][1], res[0][0])
+        extra = res[0][0].pc[len(s.pc):]
+    finally:
+        ex.pure_depth -= 1
+        smt.pop_binder()
+    hyp = [smt.is_str(k)] + list(extra)
+    yield s, BVal(z3.ForAll([k], z3.Implies(z3.And(*hyp), body)))
+
+
+LIBRARY = {
+    "contracts.specrt.forall_keys": _spec_forall_keys,
+    "copy.deepcopy": _lib_deepcopy,
+    "contracts.specrt.is_deepcopy": _spec_is_deepcopy,
+}
 CTOR_FIELDS = {}
 CTORS = {}
 
 
+# Mutable containers held in different fields are different objects (separation, assumption A3; established by the
+# dataclass default factories, GraphState.copy and the Graph constructor).  Only mutable dict/set fields are listed:
+# immutable tuples may legitimately be shared (e.g. the empty tuple).
+REGION_ATTRS = [
+    "values", "versions", "node_executions", "routing_decisions",  # GraphState
+    "input_versions", "wait_for_versions",  # NodeExecution
+    "_nodes", "controlled_by", "self_producers",  # Graph
+    "bound",  # InputSpec
+]
+Region = z3.Function("Region", smt.V, z3.IntSort())
+
+
 def axioms(ex):
     """Structural facts of the object model used as hypotheses (each one listed in evidence.assumptions)."""
-    return []
+    ax = []
+    o = z3.Const("rg_o", smt.V)
+    for i, a in enumerate(REGION_ATTRS):
+        f = smt.attr_func(a)
+        ax.append(z3.ForAll([o], Region(f(o)) == i + 1, patterns=[f(o)]))
+    ex.model.used.add("separation: containers held in fields %s are pairwise distinct objects" % ", ".join(REGION_ATTRS))
+    return ax
